@@ -157,7 +157,7 @@ What the translator decides (the spelling "dialect", shared with the hand models
   * `k as f64` -> `((k : Nat) : α)` / `((k : Int) : α)`.
   * FALLBACKS (options `default_consts`, `auto_lits`, both on): an f64 associated constant / `std::f64::consts` constant without a
     spelling in `consts` is a field of the class `Cv.F64Consts` (Model/F64Consts.lean: `f64::EPSILON` = `Cv.F64Consts.eps`, `PI` =
-    `Cv.F64Consts.pi`, …); an inexact decimal literal without a name in `named_lits` is `Cv.Lit.ofBits 0x<bits of the f64 it rounds
+    `Cv.F64Consts.pi`, …); an inexact decimal literal without a name in `named_lits` is `Cv.LitBits.ofBits 0x<bits of the f64 it rounds
     to>`.  They exist so that a source edit that INTRODUCES a constant or a literal still regenerates — the regenerated definition
     mentions it and the equivalence theorem against the hand model fails — instead of leaving the subset (a mere note).
     `tools/cv/srctie.py` adds the import and the two instance binders to a generated file only when it uses them.
@@ -1162,7 +1162,7 @@ class Opts:
         self.redraw = None            # (implies `mut`) the whole body `let mut v = D; while c(v) { v = D; } tail(v)` with `D` a draw of an abstract
                                       # generator: dict(draws=[source texts of D], state="Cv.Rng"); see Translator._redraw_def
         self.default_consts = True    # `f64::EPSILON`, `consts::PI`, … without a spelling in `consts`: `Cv.F64Consts.*` (Model/F64Consts.lean)
-        self.auto_lits = True         # an inexact decimal literal without a name in `named_lits`: `Cv.Lit.ofBits 0x…` (its f64 bits)
+        self.auto_lits = True         # an inexact decimal literal without a name in `named_lits`: `Cv.LitBits.ofBits 0x…` (its f64 bits)
         self.inline_helpers = True    # (mut) a call `Self::h(args)` / `h(args)` of a PRIVATE function of the same file that is not in `fns`
                                       # is inlined when its body is straight-line: `assert!` / `if c { panic!() }` / immutable `let`s, then
                                       # an optional value (the asserts become guards of the calling statement)
@@ -1217,9 +1217,9 @@ def lit_to_lean(text, named, auto=False):
         return named[text]
     q, _isf, _suf = parse_float_literal(text)
     if Fraction(float(q)) != q and auto:
-        # an inexact decimal literal without a name: the f64 it is rounded to, by its bit pattern (class `Cv.Lit`)
+        # an inexact decimal literal without a name: the f64 it is rounded to, by its bit pattern (class `Cv.LitBits`)
         import struct
-        return "(Cv.Lit.ofBits 0x%016X : α)" % struct.unpack("<Q", struct.pack("<d", float(q)))[0]
+        return "(Cv.LitBits.ofBits 0x%016X : α)" % struct.unpack("<Q", struct.pack("<d", float(q)))[0]
     if Fraction(float(q)) != q:
         raise Unsupported("float literal %s is not exactly representable: name it with `named_lits`" % text)
     if q < 0:
@@ -4326,8 +4326,8 @@ def _selftest():
     refuse("named", "PI", consts={"BAD": "c"}, default_consts=False)
     # fallbacks (so that an edit introducing a literal / constant regenerates and fails its theorem instead of leaving the subset):
     # an inexact literal is the f64 it rounds to, by bits; f64 / consts constants are the fields of `Cv.F64Consts`
-    check("inexact", "(x * (Cv.Lit.ofBits 0x3FB999999999999A : α))")
-    check("named", "((x * (Cv.Lit.ofBits 0x3FD4F740A93D7B8C : α)) + (((Cv.F64Consts.pi : α) * (Cv.F64Consts.pi : α)) / ((6 : Nat) : α)))")
+    check("inexact", "(x * (Cv.LitBits.ofBits 0x3FB999999999999A : α))")
+    check("named", "((x * (Cv.LitBits.ofBits 0x3FD4F740A93D7B8C : α)) + (((Cv.F64Consts.pi : α) * (Cv.F64Consts.pi : α)) / ((6 : Nat) : α)))")
     check("named", "((x * c) + ((pi * pi) / ((6 : Nat) : α)))", consts={"BAD": "c", "PI": "pi"})
     refuse("unknown_method", "cbrt")
     refuse("ln1p", "ln_1p")
